@@ -40,7 +40,19 @@ CaseTags(ev) ==
                                         Eff(k.gp, k.leaves[j].pres), a) : j \in DOMAIN k.leaves }
                  : i \in DOMAIN a.keys }
 
+\* L2: what the generated accessor renders for key j (leaf q of a group, 0 for a value key) in locale x:
+\* the text written in the file of the locale the key falls back to
+RenderTags(ev) ==
+    LET a == Cases[ev.case].abs
+        k == a.keys[ev.j]
+        pres == IF k.kind = "v" THEN k.pres ELSE Eff(k.gp, k.leaves[ev.q].pres)
+        syms == IF k.kind = "v" THEN k.syms ELSE k.syms \o <<"DOT">> \o k.leaves[ev.q].syms
+        src == Source(ev.locale, a.inh, pres, a.def) IN
+    IF ev.outcome # "Ok" THEN {"render-outcome:" \o ev.outcome}
+    ELSE IF ev.out = TextOf(src, syms) THEN {} ELSE {"rendered-locale:" \o k.name \o ":" \o ev.locale}
+
 Tags(ev) == IF ev.ev = "Load" THEN CaseTags(ev)
+            ELSE IF ev.ev = "Render" THEN RenderTags(ev)
             ELSE IF ev.ev = "Crash" THEN {"crash:" \o ev.outcome}
             ELSE {}
 
